@@ -274,6 +274,22 @@ func checkC02(r *core.Run) {
 		{"comment-in-attr", `<a title="<!--` + S + `-->">`, nil, false},
 		{"script-after-comment-open", `<script><!--<script></script>` + S + `</script>`, nil, false},
 		{"textarea-then-script", `<textarea>` + S + `</textarea><script>` + S + `</script>`, nil, false},
+		// a recursive helper that ends in another attribute than it starts in (the recursion is never taken at run time)
+		{"recursive-helper-ends-in-other-attribute", `{{define "rh"}}` + S + `{{if false}}{{template "rh" $}}{{end}}" title="x{{end}}<a href="{{template "rh" $}}">y</a>`, nil, false},
+		{"recursive-helper-ends-in-script", `{{define "rh"}}` + S + `{{if false}}{{template "rh" $}}{{end}}<script>1{{end}}<b>{{template "rh" $}}</script>`, []string{c02Marker}, false},
+		// names split over text nodes by constructs that emit nothing
+		{"tag-name-in-pieces", `<s{{$x := 1}}cript>` + S + `</script>`, []string{c02Marker}, false},
+		{"tag-name-in-pieces", `<s{{if $.C}}{{end}}tyle>` + S + `</style>`, []string{c02Marker}, false},
+		{"tag-name-in-pieces", `<s{{if true}} x{{end}}cript>` + S + `</script>`, []string{c02Marker}, false},
+		{"tag-name-in-pieces", `<s{{/* c */}}cript>x = "<p>";` + S + `</p></script>`, []string{c02Marker}, false},
+		{"attribute-name-in-pieces", `<a title{{if true}}/{{end}}="` + S + `">t</a>`, []string{"zz onmouseover=" + c02Marker + " zz"}, false},
+		{"attribute-name-in-pieces", `<a data-x{{$x := 1}}/='` + S + `'>t</a>`, []string{"zz onmouseover=" + c02Marker + " zz"}, false},
+		{"attribute-name-in-pieces", `<iframe src{{$x := 1}}doc="` + S + `"></iframe>`, []string{c02Marker}, false},
+		{"attribute-name-in-pieces", `<a o{{$x := 1}}nclick="` + S + `">t</a>`, []string{c02Marker}, false},
+		// helpers shared between a plain call site and one with conditional names / another enclosing element
+		{"helper-shared-with-conditional-element", `{{define "hp"}}{{.}}{{end}}<img src="{{template "hp" $.P0}}">{{if true}}<script{{else}}<img{{end}} src="{{template "hp" $.P1}}"></script>`, []string{"/i.png", c02Marker + ".js"}, false},
+		{"helper-shared-with-conditional-attribute", `{{define "hp"}}{{.}}{{end}}<a title="{{template "hp" $.P0}}">x</a><a {{if true}}href{{else}}title{{end}}="{{template "hp" $.P1}}">y</a>`, []string{"t", "javascript:alert(1)"}, false},
+		{"helper-shared-with-script-body", `{{define "hp"}}{{.}}{{end}}<p>{{template "hp" $.P0}}</p><script>{{template "hp" $.P1}}</script>`, []string{"t", c02Marker}, false},
 	}
 	run := func(prog string, nparts int, rng bool, cs, ws []bool, class string) {
 		atomic.AddInt64(&programs, 1)
